@@ -9,9 +9,6 @@ FLAVOURS = {
     'dbg': dict(cxx='g++', slow=3, cflags=['-O0', '-g1'], ldflags=['-rdynamic']),
 }
 
-HARNESSES = {
-    'h_solve': dict(src='h_solve.cpp', insts=['inst_soplex']),
-}
 
 
 def two_flavour(harness, quick_asan, quick_opt, th_asan, th_opt, **kw):
@@ -33,35 +30,21 @@ COMMON_ASSUME = [
 
 HOOK_COMMITS = []
 NOT_APPLICABLE = []
+HARNESSES = {}
+PROPS = {}
 
-SAN = 'g++ AddressSanitizer+UndefinedBehaviorSanitizer gate build plus -O2 volume build of the real solver'
 
-PROPS = {
-    'C01': dict(
-        level='exploration',
-        level_text='Every OPTIMAL answer of thousands of seeded (LP, configuration) pairs is judged element by element in exact rational '
-                   'arithmetic against the LP as entered; completeness is judged against planted or independently certified optima. '
-                   'Sampling of an infinite input x configuration space: held-on-what-was-observed, not a proof.',
-        level_note='trusts GMP arithmetic, the exact re-check of reference certificates, and the tolerance policy (alarm beyond 10x tolerance)',
-        technique='runtime monitoring: exact-arithmetic certificate oracle over executions of the sanitizer-instrumented solver; pairwise-covering + random configurations',
-        stages=two_flavour('h_solve', 1500, 6000, 30000, 150000),
-        minima=lambda t: {'c01.optimal_checked': 500, 'c01.complete_checked': 300, 'distinct:cfg': 50},
-        eval_counter='cases', distinct_set='nontrivial',
-        rule='case k -> (LP family, seeded LP, configuration from the pairwise covering array or random); distinct = hash(LP structural '
-             'signature x configuration key); non-trivial = the solve performed >= 1 simplex iteration or presolve removed the LP',
-        assumptions=COMMON_ASSUME,
-    ),
-    'C02': dict(
-        level='exploration',
-        level_text='Verdicts of seeded solves are compared with planted / independently certified truth; every offered Farkas vector and '
-                   'primal ray is checked exactly (orientation-free interval disjointness, recession-cone membership). Sampling, not proof.',
-        level_note='trusts GMP arithmetic and the exact re-check of reference certificates; float noise floor 1e-9 relative on rays/Farkas',
-        technique='runtime monitoring: exact Farkas/ray/verdict oracles over executions under ASan+UBSan; ensure-ray x simplifier cross',
-        stages=two_flavour('h_solve', 1500, 6000, 30000, 120000),
-        minima=lambda t: {'c02.farkas_checked': 100, 'c02.ray_checked': 50, 'c02.verdict_checked': 800},
-        eval_counter='cases', distinct_set='nontrivial',
-        rule='case k -> (planted infeasible/unbounded/both/optimal or arbitrary LP, configuration, ensure-ray, simplifier); distinct = '
-             'hash(LP signature x configuration key); non-trivial = solver returned a definite status',
-        assumptions=COMMON_ASSUME,
-    ),
-}
+def _load_fragments():
+    import glob, os, importlib.util
+    here = os.path.dirname(os.path.abspath(__file__))
+    for f in sorted(glob.glob(os.path.join(here, 'propdefs', '*.py'))):
+        spec = importlib.util.spec_from_file_location('propdefs_' + os.path.basename(f)[:-3], f)
+        m = importlib.util.module_from_spec(spec)
+        spec.loader.exec_module(m)
+        HARNESSES.update(getattr(m, 'HARNESSES', {}))
+        PROPS.update(getattr(m, 'PROPS', {}))
+        NOT_APPLICABLE.extend(getattr(m, 'NOT_APPLICABLE', []))
+        HOOK_COMMITS.extend(getattr(m, 'HOOK_COMMITS', []))
+
+
+_load_fragments()
